@@ -26,6 +26,7 @@ def make_event(rnd, letter, port, seq):
     desc = c05.rand_desc(rnd, rnd.choice(FAMILY[fam]))
     desc[2] = rnd.choice(IDS)                      # few device ids: foreign, flipped and unknown-model datagrams reuse the id of valid ones
     desc[4] = ("p%d-%d" % (port, seq)).encode()
+    if rnd.random() < .25: desc[4] += b"\x00" + rnd.choice([b"old", "\u05d9\u05e9\u05df".encode(), b" x", b"\x00z"])    # a shorter name written over a longer one: the field is the name
     d, exp = c05.encode([c05.mk_case(rnd, desc)])[0]
     if letter in FAMILY: return d, exp
     x = bytearray(d)
@@ -41,7 +42,9 @@ def make_event(rnd, letter, port, seq):
         return bytes(x), None
     if letter == "badname":
         # a name field that is not UTF-8: a stray byte in front, or the 32 bytes end in the middle of a character (a long name cut by the field width)
-        if rnd.random() < .5: x[42] = 0xff
+        k = rnd.random()
+        if k < .35: x[42] = 0xff
+        elif k < .6: x[42:74] = (b"nm\x00" + rnd.choice([b"\xff", b"\xd7", b"ok\x00\xe2\x82"])).ljust(32, b"\x00")     # the bytes that are not text come after a zero byte
         else:
             tail = rnd.choice([b"\xd7", b"\xe2\x82", b"\xf0\x9f\x98"]); x[42:74] = b"n" * (32 - len(tail)) + tail
         return bytes(x), None
@@ -220,13 +223,13 @@ def run_clock_steps(out, rnd, n):
 
 def run_with_a_port_taken(out, rnd, n):
     """another program holds one of the configured ports when the bridge is started.  Either start() refuses (the rule, C17's subject) and there
-    is nothing to deliver, or the bridge runs - and then every valid broadcast on the ports it was configured with and could have is delivered"""
+    is nothing to deliver, or the bridge runs - and then every valid broadcast on the ports it was configured with and could have is delivered (the other program has gone by then)"""
     cases = []; io = []
     async def go():
         for _ in range(n):
             np_ = rnd.randrange(2, 5); k = rnd.randrange(np_); seq = []; exp = {p: [] for p in range(np_)}
             for j in range(8):
-                p = rnd.choice([q for q in range(np_) if q != k]); d, e = make_event(rnd, rnd.choice(list(FAMILY)), p, j + 1); seq.append((p, d)); exp[p].append(e)
+                p = rnd.randrange(np_); d, e = make_event(rnd, rnd.choice(list(FAMILY)), p, j + 1); seq.append((p, d)); exp[p].append(e)      # the held port included: a bridge that says it runs listens on all its ports
             log, nh, nw, complete = await world.feed_bridge(np_, seq, (), c05.show, c06.sentinel, occupy=k)
             cases.append({"ports": np_, "taken": k})
             if log is None: io.append("consistent"); continue
